@@ -101,7 +101,7 @@ func fnByName(name string) *FnDef {
 }
 
 const (
-	perFnQuick    = 6000
+	perFnQuick    = 60000
 	perFnThorough = 2000000
 )
 
